@@ -30,8 +30,8 @@ TRUSTED = [
     "extraction: ExtrOcamlBasic only; OCaml 4.13.1; ocaml/driver.ml; cross-checked in Coq by vm_compute on a sample",
     "modelled, not verified: json.load, Path.resolve/cwd, load_config, configure_logging, log_decision, analyze, fnmatch, tokenize, "
     "match_after's per-rule matcher are oracles (any behaviour, may raise); the theorems hold for all of them",
-    "not in the model: the legacy text log (logging.info/warning/error): stdlib logging swallows handler errors, so these calls never "
-    "raise into main(); json.dumps(ensure_ascii) and print of an ASCII line to a working stdout are total; setup_logging() raises "
+    "not in the model: the legacy text log (logging.info/warning/error): stdlib logging swallows handler errors (and, since "
+    "setup_logging sets logging.raiseExceptions = False, prints nothing about them), so these calls never raise into main(); json.dumps(ensure_ascii) and print of an ASCII line to a working stdout are total; setup_logging() raises "
     "nothing but OSError (it would need Path.home() to fail: no HOME and no passwd entry)",
     "C06_total assumes the functions main() calls raise subclasses of Exception only (KeyboardInterrupt / SystemExit escape `except Exception` by design)",
     "harness: subprocess runner, fault wrapper harness/hook_fault.py (monkeypatches, no repository change), host readers written from docs/hook-systems/*.md",
